@@ -13,6 +13,7 @@ import (
 
 	"verif/internal/c10"
 	"verif/internal/evid"
+	"verif/internal/l2"
 )
 
 func main() {
@@ -20,7 +21,11 @@ func main() {
 	verbose := flag.Bool("v", false, "print each violating case")
 	minimal := flag.Bool("minimal", false, "run only the hand-minimised witness schedules and print what they show")
 	r := evid.New("C10", "exploration")
-	r.Rule("a case = one request set (1-8 GetUtxo requests: outpoints spent later / never spent / created-and-spent " +
+	if l2.IsChild() {
+		// Scenario child of the L2 part: runs one scenario and exits.
+		l2.RunScenarios(r, 0, c10.L2ChildTimeout, c10.L2Scenario)
+	}
+	r.Rule("component: a case = one request set (1-8 GetUtxo requests: outpoints spent later / never spent / created-and-spent " +
 		"in one block / never created / out-of-range index / sibling outputs of one tx; start heights 0, 1, below " +
 		"creation, creation, +1, between, spend, spend+1, after, tip, tip+1, far above) on a generated chain of " +
 		"20-150 blocks served by a gated ChainSource to the real UtxoScanner; the schedule parks the scanner inside " +
@@ -28,7 +33,8 @@ func main() {
 		"fails the call or calls Stop. Fingerprint of a request = (start relation to creation/spend/tip, outpoint kind, " +
 		"arrival point relative to the batch, duplicate kind, fault that fired, answer kind); a case counts under its " +
 		"focus request, other requests are marked; non-trivial = the scanner made at least one chain callback and the " +
-		"case was decided")
+		"case was decided" + c10.L2Rule)
+	c10.L2Describe(r)
 	r.Assume("chaingen blocks/filters are a faithful chain (cross-checked against btcd by the generator's own tests)")
 	r.Assume("btcd gcs filter matching has no false negatives for the script of a spent output")
 	r.Assume("the reference RefUtxo (linear scan of blocks start..E) is the meaning of the property statement; E ranges over the best heights visible between enqueue and delivery")
@@ -112,6 +118,12 @@ func main() {
 	floor := r.Pick(300, 2000)
 	if *only >= 0 {
 		floor = 1
+	} else {
+		// L2 part: ChainService.GetUtxo of the real client against live
+		// simulated peers (internal/c10/l2.go), one child process per
+		// scenario, reporting into the same run.
+		c10.L2Run(r)
+		floor += c10.L2MinDistinct
 	}
 	r.Finish(floor)
 }
